@@ -2,7 +2,7 @@
 //! while the requests under observation must still get exactly their own responses.
 fn main() {
     ecverif::microrun::main_for(
-        ecverif::microrun::Profile { key: "c01d", drops: true, timeouts: false, tx_fail: false, rx_noise: true },
+        ecverif::microrun::Profile { key: "c01d", drops: true, timeouts: false, tx_fail: false, rx_noise: true, only: &[] },
         150,
         4000,
     );
